@@ -3,7 +3,7 @@ outputs) and the reference strategies they are compared with.
 """
 import math
 import random
-from typing import Any, Dict, List, Optional
+from typing import Tuple, Any, Dict, List, Optional
 
 from . import env  # noqa: F401
 from .monitor import Plugin, close, REL
@@ -304,7 +304,9 @@ class AgentsPlugin(Plugin):
         elif kind == "arb":
             self.well_formed(mon, agent, out, ttl=agent.order_time_length)
             orders = [o for o in out if isinstance(o, Order)]
-            want_total = []
+            want_total: List[Tuple] = []
+            undecided = False
+            acted_on_index = False
             for m in markets:
                 if not isinstance(m, IndexMarket) or not agent.is_market_accessible(m.market_id):
                     continue
@@ -322,28 +324,41 @@ class AgentsPlugin(Plugin):
                 eps = 1e-9 * max(abs(px), abs(idx), 1.0)
                 n = len(comps)
                 v = agent.order_volume
-                comp_orders = [o for o in orders if o.market_id in {c.market_id for c in comps}]
                 if abs(gap) > thr + eps:
                     cheap_index = gap < 0  # index market price below computed index: buy the index, sell components
                     mon.probe("arb_basket_buy_index" if cheap_index else "arb_basket_sell_index")
+                    acted_on_index = True
                     if len(mine) != 1:
-                        mon.viol("C20", "arb_basket", {"agent": agent.name, "index_orders": len(mine), "gap": gap, "threshold": thr})
+                        mon.viol("C20", "arb_basket", {"agent": agent.name, "index": m.name, "index_orders": len(mine), "gap": gap, "threshold": thr})
+                        undecided = True
                         continue
                     io = mine[0]
-                    ok = (io.is_buy == cheap_index and io.volume == n * v and io.kind == LIMIT_ORDER and close(io.price, px, 1e-12))
-                    ok = ok and len(comp_orders) == n and {o.market_id for o in comp_orders} == {c.market_id for c in comps}
-                    for o in comp_orders:
-                        c = id2m[o.market_id]
-                        ok = ok and (o.is_buy != cheap_index) and o.volume == v and o.kind == LIMIT_ORDER and close(o.price, c.get_market_price(), 1e-12)
-                    if not ok:
-                        mon.viol("C20", "arb_basket", {"agent": agent.name, "gap": gap, "threshold": thr, "n": n, "v": v,
-                                                       "orders": [repr(o) for o in orders]})
+                    if not (io.is_buy == cheap_index and io.volume == n * v and io.kind == LIMIT_ORDER and close(io.price, px, 1e-12)):
+                        mon.viol("C20", "arb_basket", {"agent": agent.name, "index": m.name, "gap": gap, "threshold": thr, "n": n, "v": v,
+                                                       "index_order": repr(io)})
+                    # one order of v on the opposite side on each component, priced at the component's market price
+                    for c in comps:
+                        want_total.append((c.market_id, not cheap_index, v, c.get_market_price()))
                 elif abs(gap) < thr - eps:
                     mon.probe("arb_below_threshold")
-                    if mine or comp_orders:
-                        mon.viol("C20", "arb_acted_below_threshold", {"agent": agent.name, "gap": gap, "threshold": thr})
+                    if mine:
+                        mon.viol("C20", "arb_acted_below_threshold", {"agent": agent.name, "index": m.name, "gap": gap, "threshold": thr})
                 else:
                     mon.probe("arb_on_threshold")
+                    undecided = True
+            if not undecided:
+                # the component legs of all baskets together (an agent may see several index markets, sharing components)
+                got_c = sorted((o.market_id, o.is_buy, o.volume, o.price) for o in orders if not isinstance(id2m[o.market_id], IndexMarket))
+                want_c = sorted(want_total)
+                ok = len(got_c) == len(want_c) and all(
+                    g[:3] == w_[:3] and close(g[3], w_[3], 1e-12) for g, w_ in zip(got_c, want_c))
+                ok = ok and all(o.kind == LIMIT_ORDER for o in orders)
+                if not ok:
+                    kind_ = "arb_basket" if acted_on_index else "arb_acted_below_threshold"
+                    mon.viol("C20", kind_, {"agent": agent.name, "component_orders": [list(x) for x in got_c][:8],
+                                            "want": [list(x) for x in want_c][:8]})
+                if len([1 for m in markets if isinstance(m, IndexMarket) and agent.is_market_accessible(m.market_id)]) >= 2 and want_c:
+                    mon.probe("arb_basket_with_several_indexes")
         elif kind == "test":
             self.well_formed(mon, agent, out)
             mon.probe("test_agent_decision")
